@@ -1036,3 +1036,16 @@ pub fn run(ctx: &mut Ctx) {
 pub fn replay(v: &serde_json::Value, obs: &mut Obs) -> Result<CheckResult, String> {
   replay_with::<Case>(v, obs, check)
 }
+
+/// libFuzzer entry: byte 0 selects serialization / detached payload / recorder answer / key alg, the rest is the token.
+pub fn fuzz_decode(data: &[u8]) -> Option<serde_json::Value> {
+  let (sel, rest) = data.split_first()?;
+  let form = Form::ALL[(*sel % 3) as usize];
+  let detached = if sel & 0x08 != 0 { Some(Bytes::new(b"detached payload")) } else { None };
+  let key_alg = match (sel >> 4) & 3 {
+    0 | 1 => None,
+    2 => Some("EdDSA".to_string()),
+    _ => Some("ES256".to_string()),
+  };
+  serde_json::to_value(Case::Offered { form, token: Bytes::new(rest), detached, key_alg, verifier_ok: sel & 0x40 == 0 }).ok()
+}
